@@ -5,10 +5,26 @@ Two executables see the same operation sequences:
     every call, every control field of `rate_t` (hook `_soxr_verif_vr_state`) as integers;
   * lean/.lake/build/bin/soxr_vr: the Lean model `SoxrModel/Vr/Model.lean` (the definitions the C16 theorems are about).
 """
-import math, os, struct, subprocess
+import math, os, re, struct, subprocess
 from vlib import common
 
-MODEL = os.path.join(common.LEAN, ".lake", "build", "bin", "soxr_vr")
+# VERIF_VR_MODEL: another build of the driver (scratch experiments with a changed model; never set by a registered command)
+MODEL = os.environ.get("VERIF_VR_MODEL") or os.path.join(common.LEAN, ".lake", "build", "bin", "soxr_vr")
+
+
+def gen_const(name, default):
+    """a constant of lean/SoxrModel/Vr/Generated.lean (printed from vr32.c by harness/vr/gen.c on every run)"""
+    try:
+        txt = open(os.path.join(common.LEAN, "SoxrModel", "Vr", "Generated.lean")).read()
+        m = re.search(r"def\s+%s\s*:\s*Nat\s*:=\s*(\d+)" % name, txt)
+        return int(m.group(1)) if m else default
+    except OSError:
+        return default
+
+
+def fade_len():
+    """AL(fade_coefs) - 1: fade_len right after a stage switch; it falls by 2 per output frame"""
+    return gen_const("fadeLen", 1024)
 LO_RATIO = 2.0 ** -6           # "strong up-sampling": the trajectories stay in [2^-6, max]
 
 
@@ -83,8 +99,12 @@ def has_state(line):
 
 
 def strip_ghost(line):
-    """the model's ghost outputs are not observables of the C code"""
-    return " ".join(t for t in line.split() if not (t.startswith("gshl=") or t.startswith("gsw=")))
+    """the model's ghost outputs are not observables of the C code: gshl (stage switches that shift a negative value
+    left), gsw (stage switches taken), mis (chunks in which the two cross-faded streams delivered different amounts:
+    where `assert(odone == odone2)` fails), neg (chunks that ended with a negative step or clock).  The harness prints
+    mis=0 neg=0 as place-holders; both sides are stripped before the diff."""
+    return " ".join(t for t in line.split() if not (t.startswith("gshl=") or t.startswith("gsw=") or t.startswith("mis=") or
+                                                    t.startswith("neg=")))
 
 
 # ------------------------------------------------------------------ op sequences
@@ -145,11 +165,13 @@ def split_real(lines):
 
 
 def scan_model(ops, mres):
-    """What the model says about a trajectory: index of the first op that is an F13 trigger (immediate request while a
-    slew is unfinished or its snap pending), of the first op during which a stream runs backwards, of the first op
-    whose stage switch left-shifts a negative value (F14), of a first request with slew_len > 0 made before any
-    ratio was set (dropped: the engine starts at the declared maximum), and the number of stage switches."""
-    info = dict(f13=None, wild=None, shl=None, first_dropped=None, nsw=0, sw_in_slew=False)
+    """What the model says about a trajectory: index of the first op that is an immediate request made while a slew is
+    unfinished or its snap pending (the F13 situation: since the repair an ordinary request that cancels the slew), of
+    the first op during which the two cross-faded streams get out of step (ghost nmis: where `assert(odone == odone2)`
+    fails, F35), of the first op during which a stream runs backwards, of the first op whose stage switch left-shifts a
+    negative value (the F14 situation), of a first request with slew_len > 0 made before any ratio was set (dropped:
+    the engine starts at the declared maximum), and the number of stage switches."""
+    info = dict(f13=None, wild=None, shl=None, mis=None, first_dropped=None, nsw=0, sw_in_slew=False, n_f13=0)
     prev = None
     for n, (o, res) in enumerate(zip(ops, mres)):
         t = o.split()
@@ -158,12 +180,16 @@ def scan_model(ops, mres):
                 continue
             s = State(l)
             if t[0] == "ratio" and prev is not None:
-                if int(t[2]) == 0 and (prev.slew != 0 or prev.newr != 0) and info["f13"] is None:
-                    info["f13"] = n
+                if int(t[2]) == 0 and (prev.slew != 0 or prev.newr != 0):
+                    info["n_f13"] += 1
+                    if info["f13"] is None:
+                        info["f13"] = n
                 if int(t[2]) != 0 and prev.defr != 0 and info["first_dropped"] is None:
                     info["first_dropped"] = n
             if s.backwards() and info["wild"] is None:
                 info["wild"] = n
+            if s.mis and info["mis"] is None:
+                info["mis"] = n
             if s.gshl and info["shl"] is None:
                 info["shl"] = n
             if s.gsw:
@@ -172,20 +198,6 @@ def scan_model(ops, mres):
                     info["sw_in_slew"] = True
             prev = s
     return info
-
-
-def make_clean(mx, ops, rng, max_iter=60):
-    """Remove the F13 triggers of a trajectory: an immediate request that arrives while a slew is unfinished (or its
-    snap pending) gets a short slew instead.  Returns (ops, model answers, scan)."""
-    for _ in range(max_iter):
-        mo, mres = model_groups(mx, ops)
-        info = scan_model(ops, mres)
-        if info["f13"] is None:
-            return ops, mo, mres, info
-        t = ops[info["f13"]].split()
-        ops = list(ops)
-        ops[info["f13"]] = "ratio %s %d" % (t[1], 1 + rng.below(64))
-    return ops, mo, mres, info
 
 
 def gen_ratio(rng, mx):
@@ -223,6 +235,7 @@ def compare(ops, mo, mres, real_ops, real_res):
     """First disagreement between the real code and the model, or None.  Returns (op index, text)."""
     flat_o = [l for g in mo for l in g]
     flat_r = [strip_ghost(l) for g in mres for l in g]
+    real_res = [strip_ghost(l) for l in real_res]
     owner = [n for n, g in enumerate(mo) for _ in g]
     for i in range(max(len(flat_o), len(real_ops))):
         a = real_ops[i] if i < len(real_ops) else "<missing>"
